@@ -1,9 +1,337 @@
 import Proofs.Lemmas.GeoIndex
 import Proofs.Audit
 
+/-!
+# C06 — `GeoIndex.query` returns exactly the points within the radius
+
+Property theorems only (helper lemmas: `Proofs/Lemmas/GeoIndex.lean`).
+
+Setting.  `P` is the type of converted points (`_to_metric` rows), `dist : P → P → α` the
+tree's metric (metres of chord for minkowski, radians of arc for haversine) in an
+arbitrary linearly ordered field `α`; `T` is *any* tree satisfying the contract
+`TreeOK dist T` ("`query_radius` returns, per query point, exactly the build positions
+within the radius, in any order, with their distances") — a hypothesis, not an axiom; the
+shuffle is *any* permutation of `range n` (or no shuffle).  Nothing is assumed about tree
+class, leaf size or the internal order of the answers.
+-/
+
 open Geo
+
 deriving instance DecidableEq for Except
 
-theorem C06_units_km_m : toKilometers (.str "5 km") = toKilometers (.str "5000 m") := by decide +kernel
+section Query
+variable {P α : Type} [Field α] [LinearOrder α] [IsStrictOrderedRing α]
 
-assert_axioms C06_units_km_m
+/-- distance of two points in kilometres, as `query` reports it -/
+def distKm (m : Metric) (dist : P → P → α) (a b : P) : α := scaleDist m (dist a b)
+
+/-- outcome of `np.random.shuffle(arange(n))` (any permutation), or `shuffle=False` -/
+def ValidShuffle (n : Nat) : Option (List Nat) → Prop
+  | none => True
+  | some σ => σ.Perm (List.range n)
+
+/-- what the property demands of `(pairs, distances)`: the pairs are exactly the
+(build index, query index) combinations — indices into the arrays *as passed in* — whose
+distance is at most `r` km, each once, and `distances[k]` is the distance of `pairs[k]`. -/
+def QuerySpec (m : Metric) (dist : P → P → α) (pts qs : List P) (r : α)
+    (pairs : List (Nat × Nat)) (ds : List α) : Prop :=
+  (∀ i q, (i, q) ∈ pairs ↔ ∃ b p, pts[i]? = some b ∧ qs[q]? = some p ∧ distKm m dist b p ≤ r) ∧
+  pairs.Nodup ∧
+  List.Forall₂ (fun pr d => ∃ b p, pts[pr.1]? = some b ∧ qs[pr.2]? = some p ∧
+    d = distKm m dist b p) pairs ds
+
+private theorem spec_of_Z (m : Metric) (hm : m ≠ .unknown) (dist : P → P → α) (pts qs tp : List P)
+    (r : α) (Z : List ((Nat × Nat) × α)) (tr : Nat → Nat)
+    (hZ : ∀ j q d, ((j, q), d) ∈ Z ↔
+      ∃ b p, tp[j]? = some b ∧ qs[q]? = some p ∧ dist b p ≤ scaleRadius m r ∧ d = dist b p)
+    (hnd : (Z.map Prod.fst).Nodup)
+    (htr : ∀ j b, tp[j]? = some b → pts[tr j]? = some b)
+    (hsurj : ∀ i b, pts[i]? = some b → ∃ j, tr j = i ∧ tp[j]? = some b)
+    (hinj : ∀ j j', j < tp.length → j' < tp.length → tr j = tr j' → j = j') :
+    QuerySpec m dist pts qs r ((Z.map Prod.fst).map (fun p => (tr p.1, p.2)))
+      ((Z.map Prod.snd).map (scaleDist m)) := by
+  have hle : ∀ d : α, d ≤ scaleRadius m r ↔ scaleDist m d ≤ r := fun d => by
+    rw [le_scaleRadius_iff]; simp [hm]
+  refine ⟨?_, ?_, ?_⟩
+  · intro i q
+    simp only [List.mem_map, Prod.mk.injEq, Prod.exists, exists_and_right, exists_eq_right]
+    constructor
+    · rintro ⟨j, q', ⟨d, hmem⟩, rfl, rfl⟩
+      obtain ⟨b, p, hb, hp, hd, _⟩ := (hZ j q' d).mp hmem
+      exact ⟨b, p, htr j b hb, hp, (hle _).mp hd⟩
+    · rintro ⟨b, p, hb, hp, hd⟩
+      obtain ⟨j, rfl, hj⟩ := hsurj i b hb
+      exact ⟨j, q, ⟨dist b p, (hZ j q _).mpr ⟨b, p, hj, hp, (hle _).mpr hd, rfl⟩⟩, rfl, rfl⟩
+  · refine List.Nodup.map_on ?_ hnd
+    rintro ⟨j, q⟩ hx ⟨j', q'⟩ hy hxy
+    simp only [Prod.mk.injEq] at hxy
+    obtain ⟨⟨⟨_, _⟩, d⟩, hmx, hx'⟩ := List.mem_map.mp hx
+    obtain ⟨⟨⟨_, _⟩, d'⟩, hmy, hy'⟩ := List.mem_map.mp hy
+    simp only [Prod.mk.injEq] at hx' hy'
+    obtain ⟨⟨rfl, rfl⟩⟩ := hx'
+    obtain ⟨⟨rfl, rfl⟩⟩ := hy'
+    obtain ⟨b, _, hb, _⟩ := (hZ _ _ d).mp hmx
+    obtain ⟨b', _, hb', _⟩ := (hZ _ _ d').mp hmy
+    have h1 := (List.getElem?_eq_some_iff.mp hb).1
+    have h2 := (List.getElem?_eq_some_iff.mp hb').1
+    rw [hinj _ _ h1 h2 hxy.1, hxy.2]
+  · rw [List.map_map, List.map_map, List.forall₂_map_left_iff, List.forall₂_map_right_iff,
+      List.forall₂_same]
+    rintro ⟨⟨j, q⟩, d⟩ hmem
+    obtain ⟨b, p, hb, hp, _, hd⟩ := (hZ j q d).mp hmem
+    exact ⟨b, p, htr j b hb, hp, by simp [distKm, hd]⟩
+
+/-- **C06_query_spec** — for every point set, every radius, both metrics, every tree
+obeying the contract and **every** permutation the shuffle may draw, `GeoIndex(pts,
+shuffle).query(qs, r)` succeeds and returns exactly the pairs within `r` km with original
+indices, each once, with the distances aligned. -/
+theorem C06_query_spec (dist : P → P → α) (T : TreeFn P α) (hT : TreeOK dist T) (m : Metric)
+    (hm : m ≠ .unknown) (pts qs : List P) (r : α) (shuffle : Option (List Nat))
+    (hσ : ValidShuffle pts.length shuffle) :
+    ∃ ix pairs ds, Index.build m pts shuffle = .ok ix ∧ query T ix qs r = .ok (pairs, ds) ∧
+      QuerySpec m dist pts qs r pairs ds := by
+  have hmb : (m == Metric.unknown) = false := by
+    cases m <;> simp_all
+  cases shuffle with
+  | none =>
+    obtain ⟨Z, h1, h2, hZ, hnd⟩ := tree_answer dist T hT pts qs (scaleRadius m r)
+    have hspec := spec_of_Z m hm dist pts qs pts r Z id hZ hnd (fun _ _ h => h)
+      (fun i b h => ⟨i, rfl, h⟩) (fun _ _ _ _ h => h)
+    refine ⟨⟨m, none, pts, pts⟩, (Z.map Prod.fst), (Z.map Prod.snd).map (scaleDist m), ?_, ?_, ?_⟩
+    · simp [Index.build, hmb]
+    · simp only [query, h1, h2]
+      by_cases he : (Z.map Prod.fst).isEmpty
+      · have : Z = [] := by simpa using he
+        subst this; simp
+      · simp [he]
+    · have e : (Z.map Prod.fst).map (fun p : Nat × Nat => (id p.1, p.2)) = Z.map Prod.fst := by
+        simp
+      rw [e] at hspec; exact hspec
+  | some σ =>
+    have hperm : σ.Perm (List.range pts.length) := hσ
+    have hlt : ∀ i ∈ σ, i < pts.length := fun i hi => List.mem_range.mp (hperm.mem_iff.mp hi)
+    have hall : σ.all (· < pts.length) = true := by
+      simpa [List.all_eq_true] using hlt
+    set tp := σ.filterMap (pts[·]?) with htp
+    have hget : ∀ j, tp[j]? = σ[j]?.bind (pts[·]?) := getElem?_filterMap_getElem? pts σ hlt
+    have hlen : tp.length = σ.length := length_filterMap_getElem? pts σ hlt
+    obtain ⟨Z, h1, h2, hZ, hnd⟩ := tree_answer dist T hT tp qs (scaleRadius m r)
+    have hσnd : σ.Nodup := hperm.nodup_iff.mpr List.nodup_range
+    have htr : ∀ j b, tp[j]? = some b → pts[σ.getD j 0]? = some b := by
+      intro j b hb
+      rw [hget] at hb
+      cases hj : σ[j]? with
+      | none => simp [hj] at hb
+      | some i =>
+        simp only [hj, Option.bind_some] at hb
+        simpa [List.getD_eq_getElem?_getD, hj] using hb
+    have hsurj : ∀ i b, pts[i]? = some b → ∃ j, σ.getD j 0 = i ∧ tp[j]? = some b := by
+      intro i b hb
+      have hi : i < pts.length := (List.getElem?_eq_some_iff.mp hb).1
+      have : i ∈ σ := hperm.mem_iff.mpr (List.mem_range.mpr hi)
+      obtain ⟨j, hj⟩ := List.mem_iff_getElem?.mp this
+      exact ⟨j, by simp [List.getD_eq_getElem?_getD, hj], by rw [hget, hj]; simpa using hb⟩
+    have hinj : ∀ j j', j < tp.length → j' < tp.length → σ.getD j 0 = σ.getD j' 0 → j = j' := by
+      intro j j' h1 h2 h
+      rw [hlen] at h1 h2
+      simp only [List.getD_eq_getElem?_getD, List.getElem?_eq_getElem h1,
+        List.getElem?_eq_getElem h2, Option.getD_some] at h
+      exact (hσnd.getElem_inj_iff).mp h
+    have hspec := spec_of_Z m hm dist pts qs tp r Z (fun j => σ.getD j 0) hZ hnd htr hsurj hinj
+    have hguard : ((Z.map Prod.fst).all fun p => decide (p.1 < σ.length)) = true := by
+      rw [List.all_eq_true]
+      rintro ⟨j, q⟩ hx
+      obtain ⟨⟨⟨_, _⟩, d⟩, hmx, hx'⟩ := List.mem_map.mp hx
+      simp only [Prod.mk.injEq] at hx'
+      obtain ⟨rfl, rfl⟩ := hx'
+      obtain ⟨b, _, hb, _⟩ := (hZ _ _ d).mp hmx
+      simpa [hlen] using (List.getElem?_eq_some_iff.mp hb).1
+    refine ⟨⟨m, some σ, tp, pts⟩, (Z.map Prod.fst).map (fun p => (σ.getD p.1 0, p.2)),
+      (Z.map Prod.snd).map (scaleDist m), ?_, ?_, hspec⟩
+    · simp [Index.build, hmb, hall, htp]
+    · simp only [query, h1, h2]
+      by_cases he : (Z.map Prod.fst).isEmpty
+      · have : Z = [] := by simpa using he
+        subst this; simp
+      · simp [he, translate, hguard, Except.map]
+
+omit [IsStrictOrderedRing α] in
+/-- two answers meeting the same specification list the same pairs (up to order) and
+attach the same distance to each pair -/
+private theorem spec_unique (m : Metric) (dist : P → P → α) (pts qs : List P) (r : α)
+    (pairs pairs' : List (Nat × Nat)) (ds ds' : List α)
+    (h : QuerySpec m dist pts qs r pairs ds) (h' : QuerySpec m dist pts qs r pairs' ds') :
+    pairs.Perm pairs' ∧
+      ∀ pr d d', (pr, d) ∈ pairs.zip ds → (pr, d') ∈ pairs'.zip ds' → d = d' := by
+  refine ⟨(List.perm_ext_iff_of_nodup h.2.1 h'.2.1).mpr ?_, ?_⟩
+  · rintro ⟨i, q⟩
+    rw [h.1 i q, h'.1 i q]
+  · intro pr d d' hz hz'
+    obtain ⟨b, p, hb, hp, rfl⟩ := (List.forall₂_iff_zip.mp h.2.2).2 hz
+    obtain ⟨b', p', hb', hp', rfl⟩ := (List.forall₂_iff_zip.mp h'.2.2).2 hz'
+    rw [hb] at hb'; rw [hp] at hp'
+    cases hb'; cases hp'; rfl
+
+/-- **C06_config_invariant** — the answer does not depend on the configuration: any two
+contract-abiding trees (Ball / KD, any leaf size) and any two shuffles (none, or any
+permutation) give the same set of pairs with the same distances. -/
+theorem C06_config_invariant (dist : P → P → α) (T T' : TreeFn P α) (hT : TreeOK dist T)
+    (hT' : TreeOK dist T') (m : Metric) (hm : m ≠ .unknown) (pts qs : List P) (r : α)
+    (sh sh' : Option (List Nat)) (hσ : ValidShuffle pts.length sh)
+    (hσ' : ValidShuffle pts.length sh') :
+    ∃ ix ix' pairs ds pairs' ds', Index.build m pts sh = .ok ix ∧ Index.build m pts sh' = .ok ix' ∧
+      query T ix qs r = .ok (pairs, ds) ∧ query T' ix' qs r = .ok (pairs', ds') ∧
+      pairs.Perm pairs' ∧
+      ∀ pr d d', (pr, d) ∈ pairs.zip ds → (pr, d') ∈ pairs'.zip ds' → d = d' := by
+  obtain ⟨ix, pairs, ds, h1, h2, h3⟩ := C06_query_spec dist T hT m hm pts qs r sh hσ
+  obtain ⟨ix', pairs', ds', h1', h2', h3'⟩ := C06_query_spec dist T' hT' m hm pts qs r sh' hσ'
+  exact ⟨ix, ix', pairs, ds, pairs', ds', h1, h1', h2, h2',
+    spec_unique m dist pts qs r pairs pairs' ds ds' h3 h3'⟩
+
+/-- **C06_shuffle_invariant** — same tree, any two outcomes of the random shuffle
+(including `shuffle=False`): same pairs, same distances. -/
+theorem C06_shuffle_invariant (dist : P → P → α) (T : TreeFn P α) (hT : TreeOK dist T)
+    (m : Metric) (hm : m ≠ .unknown) (pts qs : List P) (r : α)
+    (sh sh' : Option (List Nat)) (hσ : ValidShuffle pts.length sh)
+    (hσ' : ValidShuffle pts.length sh') :
+    ∃ ix ix' pairs ds pairs' ds', Index.build m pts sh = .ok ix ∧ Index.build m pts sh' = .ok ix' ∧
+      query T ix qs r = .ok (pairs, ds) ∧ query T ix' qs r = .ok (pairs', ds') ∧
+      pairs.Perm pairs' ∧
+      ∀ pr d d', (pr, d) ∈ pairs.zip ds → (pr, d') ∈ pairs'.zip ds' → d = d' :=
+  C06_config_invariant dist T T hT hT m hm pts qs r sh sh' hσ hσ'
+
+/-- **C06_tree_class_invariant** — `T`, `T'` stand for `BallTree(points, …)` and
+`KDTree(points, …)`: the contract does not mention the class, so the answers agree. -/
+theorem C06_tree_class_invariant (dist : P → P → α) (ball kd : TreeFn P α)
+    (hB : TreeOK dist ball) (hK : TreeOK dist kd) (m : Metric) (hm : m ≠ .unknown)
+    (pts qs : List P) (r : α) (sh : Option (List Nat)) (hσ : ValidShuffle pts.length sh) :
+    ∃ ix pairs ds pairs' ds', Index.build m pts sh = .ok ix ∧
+      query ball ix qs r = .ok (pairs, ds) ∧ query kd ix qs r = .ok (pairs', ds') ∧
+      pairs.Perm pairs' ∧
+      ∀ pr d d', (pr, d) ∈ pairs.zip ds → (pr, d') ∈ pairs'.zip ds' → d = d' := by
+  obtain ⟨ix, ix', pairs, ds, pairs', ds', h1, h1', h2, h2', h3⟩ :=
+    C06_config_invariant dist ball kd hB hK m hm pts qs r sh sh hσ hσ
+  rw [h1] at h1'; cases h1'
+  exact ⟨ix, pairs, ds, pairs', ds', h1, h2, h2', h3⟩
+
+/-- **C06_leaf_invariant** — a family of trees indexed by `leaf_size`, each obeying the
+contract: the answer is the same for every two leaf sizes. -/
+theorem C06_leaf_invariant (dist : P → P → α) (tree : Nat → TreeFn P α)
+    (hT : ∀ leaf, TreeOK dist (tree leaf)) (leaf leaf' : Nat) (m : Metric) (hm : m ≠ .unknown)
+    (pts qs : List P) (r : α) (sh : Option (List Nat)) (hσ : ValidShuffle pts.length sh) :
+    ∃ ix pairs ds pairs' ds', Index.build m pts sh = .ok ix ∧
+      query (tree leaf) ix qs r = .ok (pairs, ds) ∧ query (tree leaf') ix qs r = .ok (pairs', ds') ∧
+      pairs.Perm pairs' ∧
+      ∀ pr d d', (pr, d) ∈ pairs.zip ds → (pr, d') ∈ pairs'.zip ds' → d = d' :=
+  C06_tree_class_invariant dist (tree leaf) (tree leaf') (hT leaf) (hT leaf') m hm pts qs r sh hσ
+
+end Query
+
+/-- **C06_nodist_eq** — `query(..., return_distance=False)` returns the first component
+of `query(..., return_distance=True)` (after fix 8cd8847: translated indices), for every
+index object and tree, contract or not. -/
+theorem C06_nodist_eq {P α : Type} [NatCast α] [Mul α] [Div α] (T : TreeFn P α) (ix : Index P)
+    (qs : List P) (r : α) :
+    queryNoDist T ix qs r = (query T ix qs r).map Prod.fst := by
+  unfold queryNoDist query
+  cases hs : ix.shuffler with
+  | none =>
+    by_cases he : (pairsOf (T ix.treePoints qs (scaleRadius ix.metric r)).1).isEmpty
+    · simp only [he, if_true, Except.map]
+      simpa using he
+    · simp [he, Except.map]
+  | some σ =>
+    by_cases he : (pairsOf (T ix.treePoints qs (scaleRadius ix.metric r)).1).isEmpty
+    · simp only [he, if_true, Except.map]
+      simpa using he
+    · simp only [he, Bool.false_eq_true, if_false, Except.map]
+      cases translate σ (pairsOf (T ix.treePoints qs (scaleRadius ix.metric r)).1) <;> rfl
+
+/-! ## Units -/
+
+/-- **C06_units_table** — every spelling of `UNITS_CONVERSION_FACTORS` is found with
+its own factor (no spelling is shadowed by an earlier row). -/
+theorem C06_units_table :
+    ∀ e ∈ unitTable, ∀ n ∈ e.1, lookupUnit n unitTable = some e.2 := by decide +kernel
+
+/-- **C06_units** — for **every** length: whenever `split_units` reads the string as
+length `l ≠ 0` and a unit spelled as in the table (factor `f`), `to_kilometers` returns
+exactly `l × f` (over ℚ); without unit it returns `l`; an unknown unit or a length of 0
+is a ValueError. -/
+theorem C06_units (s : String) (l : Rat) (u : List Char) (hs : splitUnits s.toList = (.fin l, u)) :
+    (l = 0 → toKilometers (.str s) = .error .valueError) ∧
+    (l ≠ 0 → u = [] → toKilometers (.str s) = .ok l) ∧
+    (l ≠ 0 → u ≠ [] → ∀ f, lookupUnit (String.ofList u) unitTable = some f →
+        toKilometers (.str s) = .ok (l * f)) ∧
+    (l ≠ 0 → u ≠ [] → lookupUnit (String.ofList u) unitTable = none →
+        toKilometers (.str s) = .error .valueError) := by
+  refine ⟨?_, ?_, ?_, ?_⟩
+  · intro h0; simp [toKilometers, toKilometersStr, hs, h0]
+  · intro h0 hu; simp [toKilometers, toKilometersStr, hs, h0, hu]
+  · intro h0 hu f hf
+    have : u.isEmpty = false := by cases u <;> simp_all
+    simp [toKilometers, toKilometersStr, hs, h0, this, hf]
+  · intro h0 hu hf
+    have : u.isEmpty = false := by cases u <;> simp_all
+    simp [toKilometers, toKilometersStr, hs, h0, this, hf]
+
+/-- **C06_units_scan** — the scanner on every spelling of the table, in three layouts
+(`"5 u"`, `"2.5e3u"`, `" 1_000.25  u "`): the result is `length × factor` exactly. -/
+theorem C06_units_scan :
+    ∀ e ∈ unitTable, ∀ n ∈ e.1,
+      toKilometers (.str ("5 " ++ n)) = .ok (5 * e.2) ∧
+      toKilometers (.str ("2.5e3" ++ n)) = .ok (2500 * e.2) ∧
+      toKilometers (.str (" 1_000.25  " ++ n ++ " ")) = .ok ((100025 : Rat) / 100 * e.2) := by
+  decide +kernel
+
+/-- **C06_units_agree** — the same length written in different units gives exactly the
+same radius over ℚ: `'5 km'`, `'5000 m'`, `'500000 cm'`; miles go through the statute
+factor 1.609344 exactly; and in general `x km = 1000·x m = 100000·x cm` for every `x`. -/
+theorem C06_units_agree :
+    toKilometers (.str "5 km") = .ok 5 ∧ toKilometers (.str "5000 m") = .ok 5 ∧
+    toKilometers (.str "500000 cm") = .ok 5 ∧ toKilometers (.str "5") = .ok 5 ∧
+    toKilometers (.str "3.1 miles") = .ok ((31 : Rat) / 10 * ((1609344 : Rat) / 1000000)) ∧
+    toKilometers (.str "0 km") = .error .valueError ∧
+    toKilometers (.str "5 parsec") = .error .valueError ∧
+    toKilometers (.str "") = .error .valueError ∧
+    toKilometers .other = .error .valueError ∧
+    (∀ x : Rat, toKilometers (.num x) = .ok x) ∧
+    (∀ x : Rat, (1000 * x) * ((1 : Rat) / 1000) = x * 1 ∧ (100000 * x) * ((1 : Rat) / 100000) = x * 1) := by
+  refine ⟨by decide +kernel, by decide +kernel, by decide +kernel, by decide +kernel,
+    by decide +kernel, by decide +kernel, by decide +kernel, by decide +kernel, rfl,
+    fun x => rfl, fun x => ⟨by ring, by ring⟩⟩
+
+/-! ## Non-vacuity: the contract is satisfiable, the theorems apply to concrete data -/
+
+/-- a brute-force "tree" — it satisfies the contract, so `TreeOK` is not vacuous -/
+def bruteTree {P α : Type} [LE α] [DecidableRel (α := α) (· ≤ ·)] (dist : P → P → α) :
+    TreeFn P α := fun build qs rt =>
+  let ans := qs.map (fun q => specRow dist build q rt)
+  (ans.map (·.map Prod.fst), ans.map (·.map Prod.snd))
+
+theorem bruteTree_ok {P α : Type} [LE α] [DecidableRel (α := α) (· ≤ ·)] (dist : P → P → α) :
+    TreeOK dist (bruteTree dist) := by
+  intro build qs rt
+  refine ⟨qs.map (fun q => specRow dist build q rt), rfl, rfl, ?_⟩
+  rw [List.forall₂_map_left_iff, List.forall₂_same]
+  intro q _
+  exact List.Perm.refl _
+
+example : ValidShuffle 4 (some [2, 0, 3, 1]) := by
+  show [2, 0, 3, 1].Perm (List.range 4); decide
+example : ValidShuffle 4 none := trivial
+
+-- executable sanity tests of the model (tests, not theorems): points on a line, metres
+#guard (do let ix ← Index.build .minkowski ([0, 900, 1100, 5000] : List Rat) (some [2, 0, 3, 1])
+           query (bruteTree (fun a b => |a - b|)) ix [0, 5100] (1 : Rat))
+        == .ok ([(0, 0), (1, 0), (3, 1)], [0, 9/10, 1/10])
+#guard (do let ix ← Index.build .minkowski ([0, 900, 1100, 5000] : List Rat) none
+           query (bruteTree (fun a b => |a - b|)) ix [0, 5100] (1 : Rat))
+        == .ok ([(0, 0), (1, 0), (3, 1)], [0, 9/10, 1/10])
+#guard (do let ix ← Index.build .minkowski ([0, 900] : List Rat) (some [1, 2])
+           query (bruteTree (fun a b => |a - b|)) ix [0] (1 : Rat)) == .error .indexError
+#guard (Index.build .unknown ([0] : List Rat) none).toOption.isNone
+
+assert_axioms C06_query_spec C06_config_invariant C06_shuffle_invariant C06_tree_class_invariant
+  C06_leaf_invariant C06_nodist_eq C06_units_table C06_units C06_units_scan C06_units_agree
+  bruteTree_ok
